@@ -103,6 +103,10 @@ func runCheck(prop, tier string) int {
 	seed := envInt("VERIF_SEED", 1)
 	if tier == "thorough" {
 		solverTimeoutMs = 60000
+		jobTimeLimit = 30 * time.Minute
+	}
+	if v := envInt("GOSYM_JOBTIMEOUT", 0); v > 0 {
+		jobTimeLimit = time.Duration(v) * time.Second
 	}
 	e := loadDefault()
 	fmt.Printf("[%s] loaded /repo working tree as go/ssa in %v\n", prop, loadTime.Round(time.Millisecond))
@@ -159,6 +163,7 @@ func runCheck(prop, tier string) int {
 
 	// ---- collect ----
 	var paths, decided, steps, aborted, unknownFeas, truncated int
+	var truncNames []string
 	obTotal, obDischarged, obTrivial, obInconclusive := 0, 0, 0, 0
 	abortMsgs := map[string]int{}
 	var cands []*violation
@@ -169,6 +174,9 @@ func runCheck(prop, tier string) int {
 		job := cr.jobs[ji]
 		if jr.Truncated {
 			truncated++
+			truncNames = append(truncNames, job.Name)
+			obTotal++
+			obInconclusive++ // unexplored remainder of the job
 		}
 		reached := map[string]bool{}
 		for _, p := range jr.Paths {
@@ -383,6 +391,7 @@ func runCheck(prop, tier string) int {
 		"inconclusive_reasons":          abortMsgs,
 		"feasibility_unknown":           unknownFeas,
 		"truncated_jobs":                truncated,
+		"truncated_job_names":           truncNames,
 		"spurious_models":               spurious,
 		"violations_confirmed_by_replay": len(violLines) + len(knownLines),
 		"known_findings":                knownLines,
@@ -436,6 +445,9 @@ func runCheck(prop, tier string) int {
 		for m, n := range abortMsgs {
 			fmt.Printf("  inconclusive x%d: %s\n", n, m)
 		}
+	}
+	if truncated > 0 {
+		fmt.Printf("  truncated (time/path budget exhausted, remainder inconclusive): %s\n", trunc(strings.Join(truncNames, ", "), 600))
 	}
 	if len(vacuous) > 0 {
 		fmt.Printf("  vacuity guard: %d job(s) never reached a witness point: %s\n", len(vacuous), trunc(strings.Join(vacuous, ", "), 400))
